@@ -81,6 +81,9 @@ def compare(mshapes, iparsed, cfg):
                 diffs.append("%s: statement impl=%s model=%s" % (w, _stmt_key(b), _stmt_key(a)))
                 continue
             ww = "%s %s%s %s" % (w, '^' if a['inv'] else '', a['prop'], "|".join(a['types']))
+            # a value of the instantiation property is a value set `[ex:C]` (in both directions); every other value expression is a bare token
+            if 'value_set' in b and any(v != (b['prop'] == cfg['inst_prop']) for v in b['value_set']):
+                diffs.append("%s: value written %s, expected %s" % (ww, " ".join(b['type_toks']), "a value set [..]" if b['prop'] == cfg['inst_prop'] else "a bare token"))
             expect_fig = figures_visible and a['card'] not in ('*', '?') and len(a['types']) == 1
             if expect_fig != b['has_fig']:
                 diffs.append("%s: figure presence impl=%s expected=%s" % (ww, b['has_fig'], expect_fig))
